@@ -1,20 +1,30 @@
 """C09 — relations read the same from both sides: the real request pipeline below the GraphQL parser (mapper.ToSelect, Planner.Select,
 optimizePlan with join inversion, the type-join nodes, scan nodes and the fetcher stack) over symbolic documents in the key-value model."""
 
+KF = "C09-order-through-relation-drops-parentless"
 REDIR = {"github.com/sourcenetwork/defradb/internal/lens.NewFetcher": "qNoLens"}
 QN = {0: "parent-lists-children", 1: "child-shows-parent", 2: "parents-by-child-filter", 3: "parents-by-two-child-conditions",
       4: "parents-by-child-filter-with-children", 5: "children-by-parent-filter", 6: "parents-by-child-filter-with-ordered-children",
-      7: "parents-by-child-filter-with-count", 8: "parents-by-child-filter-ordered", 9: "parent-lists-ordered-children"}
+      7: "parents-by-child-filter-with-count", 8: "parents-by-child-filter-ordered", 9: "parent-lists-ordered-children",
+      10: "children-by-own-and-parent-filter", 11: "children-ordered-by-parent-field"}
 
 
 def jobs(tier):
     js = []
     for q in QN:
         for idx in (0, 1, 2, 3):
-            if idx >= 2 and q not in (5, 8):
+            if idx >= 2 and q not in (5, 8, 10, 11):
                 continue
             nd = 2 if tier == "quick" else 3
-            js.append({"id": f"O1.one-to-many.{QN[q]}.idx{idx}.devices{nd}", "func": "VerifH_C09_OneToMany", "conf": {"q": q, "idx": idx, "devices": nd},
+            if q == 11 and idx >= 2:
+                # the join is inverted by the order: children without a parent are dropped (known finding, D38)
+                js.append({"id": f"O1.one-to-many.{QN[q]}.idx{idx}.devices{nd}.every-child-has-a-parent", "func": "VerifH_C09_OneToMany",
+                           "conf": {"q": q, "idx": idx, "devices": nd, "class": 0}, "_obligation": "O1", "_covers": ["ran"], "unwind": 60})
+                js.append({"id": f"O1.one-to-many.{QN[q]}.idx{idx}.devices{nd}.some-child-has-no-parent", "func": "VerifH_C09_OneToMany",
+                           "conf": {"q": q, "idx": idx, "devices": nd, "class": 1}, "_obligation": "O1", "_covers": ["ran"], "unwind": 60,
+                           "_expect": "known:" + KF, "_known_labels": ["children-with-a-matching-parent-appear-once-each"]})
+                continue
+            js.append({"id": f"O1.one-to-many.{QN[q]}.idx{idx}.devices{nd}", "func": "VerifH_C09_OneToMany", "conf": {"q": q, "idx": idx, "devices": nd, "class": 2},
                        "_obligation": "O1", "_covers": ["ran"], "unwind": 60})
     ON = {0: "secondary-shows-related", 1: "primary-shows-related", 2: "parents-by-related-filter", 3: "primary-by-related-filter", 4: "parents-by-related-filter-with-related"}
     for q in ON:
